@@ -82,14 +82,23 @@ def run_go_functions(rep, spec, contracts, word=64, natives=(), extra_pkgs=(), v
         for cl in c.get('inline'):
             inl |= set(cl.text.replace(',', ' ').split())
     pkgs = sorted({pkg_of_key(k) for k in list(keys) + list(inl) if not k.startswith(('natives:', 'goroot:'))} | set(extra_pkgs))
-    dump = run_astdump(pkgs, sorted(set(keys) | inl), natives=natives)
+    allkeys = {c.key for c in spec.contracts if c.kind == 'func' and not c.key.startswith(('natives:', 'goroot:')) and pkg_of_key(c.key) in pkgs}
+    dump = run_astdump(pkgs, sorted(set(keys) | inl | allkeys), natives=natives)
     for e in dump.get('errors') or []:
         rep.notes.append('type-check: ' + e)
     out = []
+    proved_lemmas = set()
     for c in contracts:
         v = GoVerifier(dump, spec, word=word)
         try:
+            v.load_axioms()
             fr = v.verify_function(c.key)
+            for ln in sorted(getattr(v, 'used_lemmas', set()) - proved_lemmas):
+                proved_lemmas.add(ln)
+                if getattr(spec.lemmas[ln], 'is_axiom', False):
+                    rep.assumed.add('definition ' + ln)
+                else:
+                    v.verify_lemma(ln)
             rep.functions.append(c.key)
             rep.paths[c.key] = fr.n_paths
             out += v.obls
